@@ -56,9 +56,9 @@ var c25Progs = [][]byte{
 		0xe0, 0x06, // LDH (06),A   TMA=FE
 		0x3e, 0x05, // LD A,05
 		0xe0, 0x07, // LDH (07),A   TAC=enable,16-clock
-		0xfb, // EI
-		0x76, // HALT
-		0x04, // INC B
+		0xfb,       // EI
+		0x76,       // HALT
+		0x04,       // INC B
 		0x18, 0xfc, // JR back to HALT
 	}, 0x50: {
 		0x34, // INC (HL)
